@@ -74,13 +74,26 @@ def write_tree(pkgs, base):
         os.makedirs(p.root, exist_ok=True)
         lines = [f'name = "{p.name}"', "[dependencies]"]
         byname = {q.name: q for q in pkgs}
+        subtables = []
         for d in p.deps:
             q = byname[d]
+            # every legal spelling of a dependency: a version string, an inline table (version / git / path), a sub-table
+            how = _LINK_RNG.random()
             if q.kind == "path":
-                lines.append(f'{d} = {{ path = "{os.path.relpath(q.root, p.root)}" }}')
-            else:
+                rel = os.path.relpath(q.root, p.root)
+                if how < 0.75:
+                    lines.append(f'{d} = {{ path = "{rel}" }}')
+                else:
+                    subtables.append(f'[dependencies.{d}]\npath = "{rel}"')
+            elif how < 0.5:
                 lines.append(f'{d} = "1.0"')
-        open(p.root + "/gleam.toml", "w").write("\n".join(lines) + "\n")
+            elif how < 0.7:
+                lines.append(f'{d} = {{ version = "~> 1.2" }}')
+            elif how < 0.85:
+                lines.append(f'{d} = {{ git = "https://example.com/{d}.git", ref = "main" }}')
+            else:
+                subtables.append(f'[dependencies.{d}]\nversion = ">= 1.0.0 and < 2.0.0"')
+        open(p.root + "/gleam.toml", "w").write("\n".join(lines + subtables) + "\n")
         for path, (mod, text) in p.files.items():
             # some modules are reached through a symbolic link below src/ or test/ (a linked file, or a linked directory):
             # the layout is the same, the module is importable under the same name
